@@ -19,7 +19,15 @@ rejected, counted; NotImplementedError for two-dimensional chunk grids -> unsupp
 Matrices: random normal float64/float32, rank deficient, zero, badly scaled.
 
 Calibration
-* (see bottom; filled from the calibration runs)
+* einsum with mixed float32 / wider operands: np.einsum itself contracts in the narrower dtype depending on `optimize`
+  (its optimize=True and optimize=False results differ by eps(float32)); the tolerance follows the least precise
+  floating operand (first version used eps of the float64 result: false alarm `einsum:-:values`, 1e-7 relative).
+* dtype of qr/svd factors is not part of the statement and is not compared; the tolerance uses eps of the input dtype.
+* da.inner does not exist in the pinned tree (np.inner falls back to NumPy): counted as unsupported.
+* A ValueError naming the documented tsqr/sfqr preconditions is a refusal (rejected, counted), any other exception a
+  violation; NotImplementedError (two-dimensional chunk grid) is unsupported.
+* Labels carry only the code path (tsqr / sfqr / tsqr-of-transpose / single, recursive, shape-contradicts-chunking);
+  matrix flavour and short blocks are in the witness detail, so one mechanism does not fan out into many labels.
 """
 from __future__ import annotations
 
@@ -52,7 +60,20 @@ CLAIM = ("Every generated tensor product was computed by the real dask.array and
 LEVEL_NOTE = ("NumPy is the reference; only the functions the statement names (scipy-backed lu/solve/cholesky and "
               "svd_compressed are outside); da.inner does not exist in the pinned tree")
 TECHNIQUE = "runtime monitoring: NumPy differential for tensor products, algebraic factor oracle for qr/svd"
-PENDING = {}
+PENDING = {
+    "tensordot:negative-left-axis:shape":
+        "tensordot with a negative entry in the left axes list re-inserts the contracted axis at the wrong position when "
+        "the right operand has no free dimension after it (wrong result shape)",
+    "qr:tsqr&shape-contradicts-chunking:shape":
+        "qr of a one-column-block matrix with fewer rows than columns: Q is declared with chunks (rows, rows) but only one "
+        "block column exists, the computed Q has its columns duplicated",
+    "einsum:repeated-index&axes-chunked-differently:ValueError":
+        "einsum with an index repeated inside one operand ('ii', 'kk->k') raises unless both axes are chunked identically",
+    "tensordot:int-narrower-than-64-bit:dtype": "int32 x int32 tensordot returns int64 (NumPy: int32): the blockwise product is summed with the platform integer",
+    "dot:int-narrower-than-64-bit:dtype": "same mechanism through dot -> tensordot",
+    "matmul:int-narrower-than-64-bit:dtype": "int32 @ int32 returns int64 (NumPy: int32): _sum_wo_cat derives the dtype from a sum",
+    "einsum:int-narrower-than-64-bit:dtype": "int32 einsum with a contraction returns int64 (NumPy: int32)",
+}
 
 TD = ["float64", "float64", "float32", "int64", "int32", "complex128"]
 MD = ["float64", "float64", "float64", "float32"]
@@ -282,24 +303,22 @@ def _run_tensor(case, ctx):
         ax = axes if isinstance(axes, int) else (tuple(axes[0]) if isinstance(axes[0], list) else axes[0],
                                                   tuple(axes[1]) if isinstance(axes[1], list) else axes[1])
         if isinstance(axes, int):
-            flags.append("axes=int")
             n_contract = int(np.prod(xs[0].shape[xs[0].ndim - axes:])) if axes else 1
         else:
             la = axes[0] if isinstance(axes[0], list) else [axes[0]]
             lb = axes[1] if isinstance(axes[1], list) else [axes[1]]
-            flags.append("axes=lists" if isinstance(axes[0], list) else "axes=int-pair")
             if any(v < 0 for v in la):
                 flags.append("negative-left-axis")
-            if any(v < 0 for v in lb):
+                ctx.count("tensordot_negative_left_axis")
+            elif any(v < 0 for v in lb):
                 flags.append("negative-right-axis")
-            if len(la) >= 2:
-                flags.append("2-pairs")
             n_contract = int(np.prod([xs[0].shape[v] for v in la])) if la else 1
         f_np = lambda a, b: np.tensordot(a, b, axes=ax)      # noqa: E731
         f_da = lambda a, b: da.tensordot(a, b, axes=ax)      # noqa: E731
     elif kind == "dot":
         n_contract = xs[0].shape[-1]
-        flags.append("ndim=%d,%d" % (xs[0].ndim, xs[1].ndim))
+        if xs[1].ndim == 1:
+            flags.append("1-d-right")
         f_np, f_da = np.dot, da.dot
     elif kind == "inner":
         n_contract = xs[0].shape[-1]
@@ -315,10 +334,8 @@ def _run_tensor(case, ctx):
             flags.append("1-d-left")
         if xs[1].ndim == 1:
             flags.append("1-d-right")
-        if xs[0].ndim > 2 or xs[1].ndim > 2:
-            flags.append("batch")
-            if xs[0].shape[:-2] != xs[1].shape[:-2]:
-                flags.append("broadcast")
+        if (xs[0].ndim > 2 or xs[1].ndim > 2) and xs[0].shape[:-2] != xs[1].shape[:-2]:
+            flags.append("batch-broadcast")
         f_np = np.matmul
         if form == "op":
             f_da = lambda a, b: a @ b                       # noqa: E731
@@ -335,13 +352,16 @@ def _run_tensor(case, ctx):
     elif kind == "einsum":
         spec, opt = case["spec"], case["optimize"]
         ins = spec.split("->")[0].split(",")
-        if any(len(set(t.replace(".", ""))) < len(t.replace(".", "")) for t in ins):
-            flags.append("repeated-index-in-operand")
+        rep = _repeated(ins, xs, cs)
+        if rep:
+            flags.append(rep)
+            ctx.count("einsum_repeated_index")
         if "..." in spec:
-            flags.append("ellipsis")
-        flags.append("explicit-output" if "->" in spec else "implicit-output")
+            if not rep.endswith("differently"):
+                flags.append("ellipsis")
+            ctx.count("einsum_ellipsis")
         if opt is not False:
-            flags.append("optimize")
+            ctx.count("einsum_optimize")
         n_contract = int(np.prod([max(x.size, 1) for x in xs]))   # crude upper bound of terms per output element
         kw = {} if case.get("split_every") is None else {"split_every": case["split_every"]}
         f_np = lambda *a: np.einsum(spec, *a, optimize=opt)         # noqa: E731
@@ -365,20 +385,58 @@ def _run_tensor(case, ctx):
         ctx.unsupported(str(ex))
         return
     except Exception as ex:  # noqa: BLE001
+        if "repeated-index&axes-chunked-differently" in flags and isinstance(ex, ValueError):
+            # one mechanism (blockwise never aligns two axes of ONE operand), several raise sites
+            import traceback
+            ctx.violation(label + ":ValueError", "%s: %s" % (type(ex).__name__, ex), traceback=traceback.format_exc()[-2000:])
+            return
         ctx.exception(ex, prefix=label)
         return
     ctx.count("compared")
     ctx.count("compared_" + kind)
     exact = np.asarray(e).dtype.kind in "iub"
+    factor = 8.0
+    if kind == "einsum" and np.asarray(e).dtype.kind in "fc":
+        # Calibration: with mixed float32 / wider operands np.einsum itself contracts pairwise in the narrower dtype
+        # depending on `optimize` (optimize=True and False differ by eps(float32)); the tolerance follows the
+        # least precise floating operand.
+        eps_res = float(np.finfo(np.asarray(e).dtype).eps)
+        eps_in = max([float(np.finfo(x.dtype).eps) for x in xs if x.dtype.kind in "fc"] + [eps_res])
+        factor = 8.0 * eps_in / eps_res
     scale = float(np.prod([np.max(np.abs(x), initial=1.0) for x in xs])) * max(n_contract, 1)
-    m = compare_arrays(rv, e, exact=exact, n=max(n_contract, 1), scale=scale)
+    m = compare_arrays(rv, e, exact=exact, n=max(n_contract, 1), scale=scale, factor=factor)
+    if m and m[0] == "dtype" and np.asarray(e).dtype.kind in "iu" and np.asarray(e).dtype.itemsize < 8 \
+            and np.asarray(rv).dtype.kind in "iu":
+        # one mechanism per function (the blockwise product is summed with the platform integer), whatever the spec
+        ctx.violation("%s:int-narrower-than-64-bit:dtype" % kind, m[1])
+        m = compare_arrays(rv, e, exact=exact, n=max(n_contract, 1), scale=scale, check_dtype=False, factor=factor)
     if m:
         ctx.violation("%s:%s" % (label, m[0]), m[1], result=repr(rv)[:300], expected=repr(e)[:300])
-    m = lazy_meta_mismatch(r, rv)
-    if m:
-        ctx.violation("%s:%s" % (label, m[0]), m[1])
+    else:
+        m = lazy_meta_mismatch(r, rv)
+        if m:
+            ctx.violation("%s:%s" % (label, m[0]), m[1])
     ctx.sample = {"kind": kind, "spec": case.get("spec", case.get("axes")), "shapes": case["s"], "chunks": case["c"],
                   "result_shape": list(np.shape(rv))}
+
+
+def _repeated(ins, xs, cs):
+    """'' | 'repeated-index' | 'repeated-index&axes-chunked-differently' for einsum input terms."""
+    out = ""
+    for t, x, c in zip(ins, xs, cs):
+        if "..." in t:
+            head, tail = t.split("...")
+            pos = list(range(len(head))) + list(range(x.ndim - len(tail), x.ndim))
+            t = head + tail
+        else:
+            pos = list(range(len(t)))
+        for ch in set(t):
+            axes = [pos[i] for i, q in enumerate(t) if q == ch]
+            if len(axes) > 1:
+                out = out or "repeated-index"
+                if len({tuple(c[a]) for a in axes}) > 1:
+                    return "repeated-index&axes-chunked-differently"
+    return out
 
 
 # ---------------------------------------------------------------------------------------------
@@ -428,12 +486,10 @@ def _run_decomp(case, ctx):
         ctx.count("tsqr_recursive")
     short = (path == "tsqr" and any(r < n for r in chunks[0])) or (path == "tsqr-of-transpose" and any(c < m for c in chunks[1]))
     if short:
-        flags.append("block-shorter-than-wide")
         ctx.count("tsqr_short_blocks")
     if (path == "tsqr" and m < n) or (path == "tsqr-of-transpose" and n < m):
         flags.append("shape-contradicts-chunking")
     if mk in ("zero", "rankdef"):
-        flags.append(mk)
         ctx.count("rank_deficient_or_zero")
     label = "%s:%s" % (kind, "&".join(flags))
     eps = float(np.finfo(np.dtype(dtype)).eps)
@@ -464,7 +520,7 @@ def _run_decomp(case, ctx):
     ctx.count("compared_" + kind + "_" + path)
 
     def bad(symptom, msg, **kw):
-        ctx.violation("%s:%s" % (label, symptom), msg, shape=[m, n], chunks=case["c"], **kw)
+        ctx.violation("%s:%s" % (label, symptom), msg, shape=[m, n], chunks=case["c"], matrix=mk, short_blocks=short, **kw)
 
     eye = np.eye(k)
     if kind == "qr":
